@@ -105,7 +105,8 @@ def _make_float_literal(value: float) -> cst.BaseExpression:
     if math.isinf(value):
         literal = "'inf'" if value > 0 else "'-inf'"
         return cst.Call(func=cst.Name("float"), args=[cst.Arg(value=cst.SimpleString(literal))])
-    if value < 0:
+    if math.copysign(1.0, value) < 0:
+        # The sign bit, not "value < 0": str(-0.0) is "-0.0", which is not a float token.
         return cst.UnaryOperation(operator=cst.Minus(), expression=cst.Float(str(-value)))
     return cst.Float(str(value))
 
